@@ -182,19 +182,38 @@ def r1(prog, rep):
                   f"reconstructed from the rollup data", body.describe())
 
 
-def r2(prog, rep):
-    for fn in (BL + "SequencerBlockBuilder::try_build",
-               "astria_sequencer::proposal::commitment::generate_rollup_datas_commitment"):
+def sorted_before_tree(prog, rep, rule, fns):
+    """In each of `fns` every Merkle tree derivation is dominated by a sort of the rollup map by
+    key, and nothing is inserted into the map between that sort and the derivation (deposits of
+    rollups without sequenced data are merged in after the grouping step)."""
+    for fn in fns:
         body = prog.main_body(fn)
         srt = [c for c in body.calls if c.matches(r"indexmap::map::IndexMap::<.*>::sort_unstable_keys$")]
         trees = [c for c in body.calls if c.matches(r"astria_merkle::Tree::from_leaves$|"
                                                     r"derive_merkle_tree_from_rollup_txs$")]
-        rep.floor("R2", len(trees), 2, f"Merkle tree derivations in {short_name(fn)}")
+        ins = [c for c in body.calls if not c.expn and c.target is not None and
+               c.matches(r"indexmap::map::(IndexMap|core::entry::\w+|Entry)(::<.*>)?::"
+                         r"(entry|insert|insert_full|extend|or_default|or_insert|or_insert_with)$")]
+        rep.floor(rule, len(trees), 2, f"Merkle tree derivations in {short_name(fn)}")
         for t in trees:
-            ok = any(body.must_pass_block(s.bb, t.bb) for s in srt)
-            rep.check(ok, "R2", f"{short_name(fn)}:sort<tree:{short_name(t.callee)}",
+            good = []
+            for s_ in srt:
+                if not body.must_pass_block(s_.bb, t.bb) or s_.target is None:
+                    continue
+                after_sort = body.reachable(s_.target)
+                late = [i for i in ins if i.bb in after_sort and t.bb in body.reachable(i.target)]
+                if not late:
+                    good.append(s_)
+            rep.check(bool(good), rule, f"{short_name(fn)}:sort<tree:{short_name(t.callee)}",
                       f"{fn}: `{short_name(t.callee)}` is derived from the rollup map before it is "
-                      f"sorted by key (commitments would depend on hash-map order)", t.where())
+                      f"sorted by key, or entries are added after the last sort (commitments would "
+                      f"depend on insertion / hash-map order)", t.where())
+
+
+def r2(prog, rep):
+    sorted_before_tree(prog, rep, "R2", (
+        BL + "SequencerBlockBuilder::try_build",
+        "astria_sequencer::proposal::commitment::generate_rollup_datas_commitment"))
     body = prog.main_body(BL + "SequencerBlock::into_filtered_block")
     snap = [c for c in body.calls if c.matches(r"Iterator::collect$") and
             "keys(self.rollup_transactions)" in body.root(c.args[0])]
